@@ -129,6 +129,8 @@ Proof.
 Qed.
 
 (* ---------- free ---------- *)
+(* from here on lia never has to reason about mod (alignment goes through the lemmas of BuddyArith): keep it opaque *)
+Local Ltac Zify.zify_post_hook ::= idtac.
 (* the address get_buddy computes is always the start of a current page of at most the same order:
    free_page never reads stale header bytes or user data *)
 Lemma buddy_is_page s p bits bd : BGeo s -> geom s p = Some bits -> get_buddy s p bits = Some bd ->
@@ -138,20 +140,24 @@ Proof.
   destruct (bg_geo s G p bits Hp) as (Hal & Hpend & H5).
   pose proof (pow2_pos bits) as Hpos. pose proof (pow2_succ bits) as Hsucc.
   assert (H32 : 32 <= 2 ^ bits) by (change 32 with (2 ^ 5); apply pow2_le; exact H5).
-  destruct (bg_cover s G bd ltac:(lia)) as (o & b0 & Ho & Hr1 & Hr2).
+  assert (K0 : bd + 32 <= b_msize s) by (clear - Hend H32; lia).
+  destruct (bg_cover s G bd K0) as (o & b0 & Ho & Hr1 & Hr2).
   destruct (bg_geo s G o b0 Ho) as (Halo & _ & _).
   pose proof (buddy_aligned p bits Hal) as Halb. rewrite <- Ebd in Halb.
   destruct (N.le_gt_cases b0 bits) as [Hle|Hgt].
   - assert (o = bd) by (apply (aligned_start o b0 bd bits); assumption). subst o. exists b0. split; assumption.
   - exfalso.
-    destruct (buddy_spec p bits Hal) as [[E A]|[E A]]; rewrite <- ?Ebd in E, A.
+    assert (K1 : bits + 1 <= b0) by (clear - Hgt; lia).
+    assert (Hne : o <> p) by (intros ->; rewrite Hp in Ho; inversion Ho as [Hb0]; clear - Hb0 Hgt; lia).
+    destruct (buddy_spec p bits Hal) as [[E A]|[E A]]; [rewrite <- Ebd in E|rewrite <- Ebd in E, A].
     + (* parent block starts at p *)
-      destruct (aligned_nested o b0 p (bits + 1) Halo A ltac:(lia) bd Hr1 Hr2 ltac:(lia) ltac:(lia)) as [N1 N2].
-      assert (Hne : o <> p) by (intros ->; rewrite Hp in Ho; inversion Ho; lia).
-      destruct (bg_disj s G o b0 p bits Ho Hp Hne); lia.
-    + destruct (aligned_nested o b0 bd (bits + 1) Halo A ltac:(lia) bd Hr1 Hr2 ltac:(lia) ltac:(lia)) as [N1 N2].
-      assert (Hne : o <> p) by (intros ->; rewrite Hp in Ho; inversion Ho; lia).
-      destruct (bg_disj s G o b0 p bits Ho Hp Hne); lia.
+      assert (K2 : p <= bd) by (clear - E Hpos; lia).
+      assert (K3 : bd < p + 2 ^ (bits + 1)) by (clear - E Hsucc Hpos; lia).
+      destruct (aligned_nested o b0 p (bits + 1) Halo A K1 bd Hr1 Hr2 K2 K3) as [N1 N2].
+      destruct (bg_disj s G o b0 p bits Ho Hp Hne) as [D|D]; clear - D N1 N2 Hpos Hsucc; lia.
+    + assert (K3 : bd < bd + 2 ^ (bits + 1)) by (clear - Hsucc Hpos; lia).
+      destruct (aligned_nested o b0 bd (bits + 1) Halo A K1 bd Hr1 Hr2 (N.le_refl bd) K3) as [N1 N2].
+      destruct (bg_disj s G o b0 p bits Ho Hp Hne) as [D|D]; clear - D N1 N2 E Hpos Hsucc; lia.
 Qed.
 
 Lemma free_page_unfold f p bits s :
@@ -178,7 +184,7 @@ Proof.
   destruct (bg_geo s G p bits Hgp) as (Hal & Hpend & H5).
   pose proof (pow2_pos bits) as Hpos.
   assert (Hb62 : bits <= 62).
-  { pose proof (bg_small s G). assert (Hlt : 2 ^ bits < 2 ^ 63) by lia. apply N.pow_lt_mono_r_iff in Hlt; lia. }
+  { pose proof (bg_small s G) as Hsm. assert (Hlt : 2 ^ bits < 2 ^ 63) by (clear - Hsm Hpend Hpos; lia). apply N.pow_lt_mono_r_iff in Hlt; [clear - Hlt; lia|clear; lia]. }
   assert (Hput : (forall o', get_buddy s p bits = Some o' -> b_hdr s o' <> Some (bits, false)) ->
                  BInv (put_state s p bits) /\ b_msize (put_state s p bits) = b_msize s /\
                  b_maxbits (put_state s p bits) = b_maxbits s /\
@@ -196,7 +202,8 @@ Proof.
     pose proof Eb as Eb'. apply get_buddy_some in Eb'. destruct Eb' as [Ebd Hbend].
     assert (Hcase : (N.min p bd = p /\ N.max p bd = bd /\ bd = p + 2 ^ bits /\ p mod 2 ^ (bits + 1) = 0) \/
                     (N.min p bd = bd /\ N.max p bd = p /\ p = bd + 2 ^ bits /\ bd mod 2 ^ (bits + 1) = 0)).
-    { destruct (buddy_spec p bits Hal) as [[E A]|[E A]]; rewrite <- ?Ebd in E, A; [left|right]; repeat split; try assumption; lia. }
+    { destruct (buddy_spec p bits Hal) as [[E A]|[E A]]; [rewrite <- Ebd in E; left|rewrite <- Ebd in E, A; right];
+      (split; [clear - E Hpos; lia|]; split; [clear - E Hpos; lia|]; split; [exact E|exact A]). }
     set (lo := N.min p bd) in *. set (hi := N.max p bd) in *.
     assert (Hgeo2 : BGeo (merge_state s lo hi bd bits)).
     { destruct Hcase as [(-> & -> & E & A)|(-> & -> & E & A)].
@@ -205,7 +212,8 @@ Proof.
     assert (Hfree2 : BFree (merge_state s lo hi bd bits)).
     { apply (merge_free s lo hi bd p bits Fr Hp Hhb). destruct Hcase as [(-> & -> & _)|(-> & -> & _)]; tauto. }
     assert (Hlo2 : b_hdr (merge_state s lo hi bd bits) lo = Some (bits + 1, true)) by (rewrite merge_hdr, N.eqb_refl; reflexivity).
-    destruct (IH lo (bits + 1) (merge_state s lo hi bd bits) (mkBInv (merge_state s lo hi bd bits) Herr Hgeo2 Hfree2) Hlo2 ltac:(lia)) as (I' & Hms & Hmx & Hu).
+    assert (Hf' : (N.to_nat (63 - (bits + 1)) < f)%nat) by (clear - Hfuel Hb62; lia).
+    destruct (IH lo (bits + 1) (merge_state s lo hi bd bits) (mkBInv (merge_state s lo hi bd bits) Herr Hgeo2 Hfree2) Hlo2 Hf') as (I' & Hms & Hmx & Hu).
     split; [exact I'|]. split; [rewrite Hms; reflexivity|]. split; [rewrite Hmx; reflexivity|].
     intros o b. rewrite Hu. unfold used. rewrite merge_hdr.
     destruct (N.eqb_spec o lo) as [->|Hn1].
